@@ -162,6 +162,10 @@ def malformed_heads(rng, n):
     for j, t in enumerate(odd):
         outs.append(b"GET " + t + b" HTTP/1.1")
         outs.append(METHODS[j % len(METHODS)][0] + b" " + t + b" HTTP/1.0")
+    for m, _ in METHODS:                      # a NUL byte inside or around the method token (C-string comparisons stop there)
+        for tok in (m + b"\x00", m + b"\x00X", b"\x00" + m, m[:-1] + b"\x00" + m[-1:], m + b"\x00" + m):
+            outs.append(tok + b" /p HTTP/1.1")
+    outs += [b"GET /p HTTP/1.1\x00", b"GET /p HTTP/1.1\x00X", b"GET /p\x00 HTTP/1.1", b"GET /p HTTP/1.0\x00\r\nA: b", b"GET /p HTTP/1.1\r\nA\x00: b", b"GET /p HTTP/1.1\r\nA: b\x00c"]
     for m, _ in METHODS:                      # every method with a target that only QUrl refuses
         for t in (b"//../secret.txt", b"//-/x", b"//a:b/", b"//["):
             outs.append(m + b" " + t + b" HTTP/1.1")
